@@ -501,6 +501,9 @@ func genC09(t *rapid.T) C09Case {
 		c.N = rapid.SampledFrom([]int{255, 257, 4095, 4097, 8191, 8193, 16381, 16383, 16385, 16387, 20001, 21843, 21845}).Draw(t, "deepneed")
 	case 0:
 		c.Kind, c.Op, c.N = "arity", rapid.SampledFrom(naryOps).Draw(t, "op"), rapid.IntRange(120, 135).Draw(t, "n")
+		if rapid.IntRange(0, 3).Draw(t, "farbeyond") == 0 {
+			c.N = rapid.SampledFrom([]int{255, 256, 257, 258, 300, 383, 384, 511, 512, 513, 639, 640, 1000}).Draw(t, "nfar")
+		}
 		c.Consts = pickW(t, "consts", 3, 1, 1, 1)
 	case 1:
 		ops := []string{"and", "&", "&&", "or", "|", "||"}
@@ -779,6 +782,18 @@ func sweepC09(tier string, shard, shards int, emit func(C09Case)) {
 			send(C09Case{Kind: "biglist", N: n, Infix: infix, Mask: masks[n%len(masks)], Events: n % 2, Reach: true})
 		}
 	}
+	// far beyond the limit: counts at which a narrow integer wraps around into the accepted range again
+	for _, op := range []string{"+", "and", "c_sum", "=", "or"} {
+		for _, n := range []int{255, 256, 257, 300, 383, 384, 385, 511, 512, 513, 640, 1024, 32768 + 5} {
+			if !thorough && n != 256 && n != 300 && n != 512 && n != 32768+5 {
+				continue
+			}
+			for _, mask := range masks {
+				send(C09Case{Kind: "arity", Op: op, N: n, Mask: mask, Events: n % 3, Reach: true})
+				send(C09Case{Kind: "arity", Op: op, N: n, Consts: 2, Mask: mask, Events: (n + 1) % 3, Reach: true})
+			}
+		}
+	}
 	// flattening crosses 127
 	for _, pair := range [][2]string{{"and", "and"}, {"and", "&&"}, {"or", "||"}, {"and", "or"}, {"|", "or"}} {
 		for _, groups := range []int{2, 3, 5} {
@@ -834,7 +849,7 @@ func sweepC09(tier string, shard, shards int, emit func(C09Case)) {
 
 var propC09 = Prop[C09Case]{
 	ID:    "C09",
-	Rule:  "constructed boundary programs: (argwide) a 100..130-operand call as the last argument of 1..3 enclosing calls with up to 40 pending operands, prefix and infix; (biglist) three-node programs over list literals of up to 140 000 elements; (arity) every n-ary operator and alias with 120..135 operands - variables, neutral constants, constants then a variable, a variable then constants; (flatten) and/or whose operand count crosses 127 only after ReduceNesting merges 2..6 inner operators, same and different operator kinds; (nodes; also with leaves replaced by ifs, by two-leaf operators, and by ifs over two-leaf operators) programs of exactly N nodes for N within +-3 of 16383, 16384 and 32767 (and 8192, 10922) built from <=127-ary layers of + or alternating and/or over variables; (stack) six nesting shapes (right-nested arithmetic, alternating and/or, wide-then-deep, if chains, comparison under and, deep-first) for every operand-stack requirement 1..24; x optimization subsets x {no events, ReportEvent, Debug} x bindings that reach the deepest point / short-circuit at once; programs compiled without events sometimes get a channel attached to Expr.EventChan all the same. Oracle: Compile returns exactly one of program/error, never panics; it rejects iff the harness's own count on the optimized shape exceeds a limit (operands > 127, nodes > 32767, nodes incl. event nodes > 32767); compiled programs are themselves within the limits (node count and widest operator read through the hook; a program the size model puts beyond a limit may compile only if what was built is smaller than modelled and within the limits), have a stack bound >= the slots the evaluation needs (hook), and Eval and TryEval return R's value. Non-trivial = a size parameter within +-2 of 127 / 16383 / 32767 or a stack requirement within +-2 of 8 / 16; distinct by parameters. The sweep part is an exhaustive grid (reduced in quick)",
+	Rule:  "constructed boundary programs: (argwide) a 100..130-operand call as the last argument of 1..3 enclosing calls with up to 40 pending operands, prefix and infix; (biglist) three-node programs over list literals of up to 140 000 elements; (arity) every n-ary operator and alias with 120..135 operands and with counts where narrow integers wrap (255..257, 300, 383..385, 511..513, 640, 1024, 32773) - variables, neutral constants, constants then a variable, a variable then constants; (flatten) and/or whose operand count crosses 127 only after ReduceNesting merges 2..6 inner operators, same and different operator kinds; (nodes; also with leaves replaced by ifs, by two-leaf operators, and by ifs over two-leaf operators) programs of exactly N nodes for N within +-3 of 16383, 16384 and 32767 (and 8192, 10922) built from <=127-ary layers of + or alternating and/or over variables; (stack) six nesting shapes (right-nested arithmetic, alternating and/or, wide-then-deep, if chains, comparison under and, deep-first) for every operand-stack requirement 1..24; x optimization subsets x {no events, ReportEvent, Debug} x bindings that reach the deepest point / short-circuit at once; programs compiled without events sometimes get a channel attached to Expr.EventChan all the same. Oracle: Compile returns exactly one of program/error, never panics; it rejects iff the harness's own count on the optimized shape exceeds a limit (operands > 127, nodes > 32767, nodes incl. event nodes > 32767); compiled programs are themselves within the limits (node count and widest operator read through the hook; a program the size model puts beyond a limit may compile only if what was built is smaller than modelled and within the limits), have a stack bound >= the slots the evaluation needs (hook), and Eval and TryEval return R's value. Non-trivial = a size parameter within +-2 of 127 / 16383 / 32767 or a stack requirement within +-2 of 8 / 16; distinct by parameters. The sweep part is an exhaustive grid (reduced in quick)",
 	Gen:   genC09,
 	Check: checkC09,
 	Sweep: sweepC09,
